@@ -50,8 +50,23 @@ pub fn cleanup(path: &str) {
     let _ = std::fs::remove_file(format!("{}.db-journal", path));
 }
 
+fn big_text(r: &mut Rng, n: usize) -> Vec<u8> {
+    // poorly compressible text, larger than the 32 KiB windows of the compressors
+    let mut v = Vec::with_capacity(n);
+    while v.len() < n {
+        let w = r.next();
+        v.extend_from_slice(format!("{:x} ", w).as_bytes());
+    }
+    v.truncate(n);
+    v
+}
 fn rand_bytes(r: &mut Rng) -> Vec<u8> {
-    match r.below(8) {
+    match r.below(10) {
+        8 => {
+            let n = 70_000 + r.below(200_000);
+            big_text(r, n)
+        }
+        9 => (0..40_000 + r.below(60_000)).map(|_| r.below(256) as u8).collect(),
         0 => vec![],
         1 => vec![r.below(256) as u8],
         2 => (0..5000).map(|_| r.below(256) as u8).collect(), // incompressible
@@ -88,7 +103,7 @@ pub fn contract_case(seed: u64, case: u64, kind: &str, tmp: &str, nops: usize) -
         }};
     }
     for step in 0..nops {
-        match r.below(12) {
+        match r.below(15) {
             0..=3 => {
                 let k = rand_key(&mut r);
                 let v = rand_bytes(&mut r);
@@ -136,6 +151,54 @@ pub fn contract_case(seed: u64, case: u64, kind: &str, tmp: &str, nops: usize) -
                         }
                     }
                     o => bad!("ranged-read-failed", format!("step {} key {} [{}..+{}] of {}: {}", step, k, off, len, v.len(), o.describe())),
+                }
+            }
+            11 => {
+                // sweep of small windows across a large value (compressor block boundaries)
+                let cands: Vec<&String> = model.iter().filter(|(_, v)| v.len() > 40_000).map(|(k, _)| k).collect();
+                if cands.is_empty() {
+                    continue;
+                }
+                let k = cands[r.below(cands.len())].clone();
+                let v = model[&k].clone();
+                let win = 200 + r.below(600);
+                let mut off = r.below(4096);
+                let mut n = 0;
+                while off + win <= v.len() && n < 80 {
+                    res.count("c17_ranged_reads", 1);
+                    match guard(|| ad.read_object(&k, off, win)) {
+                        Outcome::Ok(g) => {
+                            if g != v[off..off + win] {
+                                bad!("ranged-read-returns-other-bytes", format!("step {} key {} [{}..+{}] of {} (sweep): got {} bytes", step, k, off, win, v.len(), g.len()));
+                                break;
+                            }
+                        }
+                        o => {
+                            bad!("ranged-read-failed", format!("step {} key {} [{}..+{}] of {}: {}", step, k, off, win, v.len(), o.describe()));
+                            break;
+                        }
+                    }
+                    off += 4096 - win / 2 + r.below(64);
+                    n += 1;
+                }
+                res.feat_add("big_value_sweeps", 1);
+            }
+            12 => {
+                // a second handle on the same directory / database writes; the first must see it
+                if persistent(kind) {
+                    let k = rand_key(&mut r);
+                    let v = rand_bytes(&mut r);
+                    res.trace.push(format!("write {} through a second handle", k));
+                    match make(kind, &path) {
+                        Outcome::Ok(other) => match guard(|| other.write_object(&k, &v)) {
+                            Outcome::Ok(()) => {
+                                model.entry(k).or_insert(v);
+                                res.feat_add("second_handle_writes", 1);
+                            }
+                            o => bad!("write-through-second-handle-failed", format!("step {} key {}: {}", step, k, o.describe())),
+                        },
+                        o => bad!("second-handle-open-failed", format!("step {}: {}", step, o.describe())),
+                    }
                 }
             }
             9..=10 => {
